@@ -161,6 +161,31 @@ func (c *Ctx) benignClass(si *siteInfo, l Lit) string {
 			}
 		}
 	}
+	if lenCheck(l) {
+		// "nothing to report" fast path on the list of violations the site's own violation is part of: when the
+		// violation exists the list is not empty
+		for _, side := range []ssa.Value{l.X, l.Y} {
+			if x := lenOf(side); x != nil {
+				if sl, ok := x.Type().Underlying().(*types.Slice); ok {
+					et := sl.Elem()
+					if pt, isP := et.(*types.Pointer); isP {
+						et = pt.Elem()
+					}
+					if nmd, ok := et.(*types.Named); ok {
+						nonEmpty := (l.Kind == "eq" && !l.Pos) || (l.Kind == "lt" && l.Pos)
+						for _, vt := range c.M.VTypes {
+							if vt.Named == nmd && nonEmpty {
+								return "non-empty list of violations"
+							}
+						}
+						if typeStr(nmd) == "reporting.Violation" && nonEmpty {
+							return "non-empty list of violations"
+						}
+					}
+				}
+			}
+		}
+	}
 	if !l.Pos && c.isEmptyIndexCall(l) {
 		// fast path "index is empty": membership in an empty index is false anyway
 		return "empty-index fast path"
